@@ -97,6 +97,20 @@ func (m *Machine) decClass(fr *frame, t *smt.Term) (neg bool, digits int) {
 	return neg, 20
 }
 
+// decLenTerm is len(strconv.FormatInt(t, 10)) as a term (no forking).
+func (m *Machine) decLenTerm(t *smt.Term) *smt.Term {
+	c := m.C
+	neg := c.Slt(t, c.Const(0, 64))
+	mag := c.Ite(neg, c.Neg(t), t)
+	r := c.Const(20, 64)
+	p := uint64(10000000000000000000)
+	for d := 19; d >= 1; d-- {
+		r = c.Ite(c.Ult(mag, c.Const(p, 64)), c.Const(uint64(d), 64), r)
+		p /= 10
+	}
+	return c.Add(r, c.Ite(neg, c.Const(1, 64), c.Const(0, 64)))
+}
+
 func (m *Machine) decBytes(fr *frame, t *smt.Term) []*smt.Term {
 	c := m.C
 	neg, nd := m.decClass(fr, t)
@@ -551,8 +565,26 @@ func (m *Machine) conv(fr *frame, tdst, tsrc types.Type, x Value) Value {
 					return m.fl(xf.OK, xf.F, fw)
 				case udt.Info()&types.IsInteger != 0:
 					w := intWidth(udt)
+					if !xf.OK && xf.Pow10Of != nil && w == 64 && udt.Info()&types.IsUnsigned == 0 {
+						// int64(math.Pow10(e)) for symbolic e, abstracted: a fresh
+						// value that is 0 exactly when e < 0 (10^e < 1) and non-zero
+						// otherwise. An over-approximation of the real value, sound for
+						// every property that does not depend on the power itself.
+						e := xf.Pow10Of
+						pw := m.fresh("pow10", 64)
+						isNeg := c.Slt(e, m.i64(0))
+						fact := c.And(c.Implies(isNeg, c.Eq(pw, m.i64(0))), c.Implies(c.Not(isNeg), c.Not(c.Eq(pw, m.i64(0)))))
+						if m.isAssumption == nil {
+							m.isAssumption = map[*smt.Term]bool{}
+						}
+						m.isAssumption[fact] = true
+						m.assume(fact)
+						m.noteAssumption("int64(math.Pow10(e)) with symbolic e is abstracted to an arbitrary value that is zero iff e < 0")
+						return pw
+					}
 					if !xf.OK {
 						m.E.Stats.HavocFloat++
+						m.noteAssumption("a float value that depends on symbolic input was converted to an integer: modelled as an arbitrary integer")
 						return m.fresh("f2i", w)
 					}
 					return c.Const(floatToInt(xf.F, udt), w)
@@ -912,6 +944,9 @@ func (m *Machine) callBuiltin(fr *frame, fn *ssa.Builtin, args []Value) Value {
 	case "len":
 		switch x := args[0].(type) {
 		case string, *Str:
+			if ds, ok := x.(*Str); ok && ds.Dec != nil && !ds.Dec.IsConst() {
+				return m.decLenTerm(ds.Dec)
+			}
 			return m.i64(int64(m.strLen(fr, x)))
 		case Slice:
 			return m.i64(int64(x.Len))
